@@ -241,8 +241,28 @@ def auto_discharge(mir, site_fn, b, bb, t):
     return None
 
 
-def _const_values(b, o, bb):
-    """the constant values an operand origin can take at block bb, or None when it is not a set of constants"""
+def _callsites(mir, fn):
+    """(caller body, block, terminator) of every workspace call to fn"""
+    sole_caller(mir, fn)          # builds the caller map
+    out = []
+    for n in sorted(_CALLERS[id(mir)].get(fn, ())):
+        for nm in [k for k in mir.bodies if (k == n or k.startswith(n + "::{closure")) and not k.endswith("#promoted")]:
+            cb = mir.body(nm)
+            if cb is None:
+                continue
+            for bb, t in cb.calls():
+                d, rd, ga, f2 = callee(t)
+                if fn in (d, rd):
+                    out.append((cb, bb, t))
+    return out
+
+
+def _const_values(b, o, bb, ctx=None, depth=0):
+    """the constant values an operand origin can take at block bb, or None when it is not a set of constants.
+    Looks through multiply-assigned locals (reaching definitions), parameters (every workspace call site of the function)
+    and iteration over a literal constant array (`for x in CONST_ARRAY` / `.iter()`), whose elements come from the AST."""
+    if depth > 6:
+        return None
     while isinstance(o, tuple) and o and o[0] in ("ref", "deref"):
         o = o[1]
     if not isinstance(o, tuple) or not o:
@@ -255,15 +275,53 @@ def _const_values(b, o, bb):
         if not ds:
             return None
         for d in ds:
-            v = _const_values(b, b.def_origin(d), d[1] if len(d) > 1 and isinstance(d[1], int) and d[0] != "arg" else bb)
+            if d[0] == "arg":
+                v = _const_values(b, ("arg", d[1]), bb, ctx, depth + 1)
+            else:
+                v = _const_values(b, b.def_origin(d), d[1] if len(d) > 1 and isinstance(d[1], int) else bb, ctx, depth + 1)
             if v is None:
                 return None
             out.extend(v)
         return out
+    if o[0] == "arg" and isinstance(o[1], int) and "{closure" not in b.name:
+        fn = b.name.split("#")[0]
+        sites = _callsites(b.mir, fn)
+        if not sites:
+            return None
+        out = []
+        for cb, cbb, t in sites:
+            if o[1] - 1 >= len(t["args"]):
+                return None
+            v = _const_values(cb, cb.origin(t["args"][o[1] - 1]), cbb, ctx, depth + 1)
+            if v is None:
+                return None
+            out.extend(v)
+        return out
+    # element of an iteration over a constant array: next(into_iter(const A)) as Some.0 / next(iter(&A))
+    if o[0] == "field" and o[1][0] == "downcast" and o[1][3] == "Some" and o[1][1][0] == "call" and re.search(r"Iterator::next$", o[1][1][1] or ""):
+        it = o[1][1][3][0] if o[1][1][3] else None
+        while isinstance(it, tuple) and it and it[0] in ("ref", "deref"):
+            it = it[1]
+        if isinstance(it, tuple) and it[0] == "phi":
+            alts = [b.def_origin(d) for d in b.defs().get(it[1], []) if d[0] != "arg"]
+            alts = [a for a in alts if isinstance(a, tuple) and a[0] == "call"]
+            it = alts[0] if len(alts) == 1 else it
+        if isinstance(it, tuple) and it[0] == "call" and re.search(r"IntoIterator::into_iter$|<impl \[T\]>::iter$|::iter$", it[1] or "") and it[3]:
+            src = it[3][0]
+            while isinstance(src, tuple) and src and src[0] in ("ref", "deref", "cast"):
+                src = src[4] if src[0] == "cast" else src[1]
+            if isinstance(src, tuple) and src[0] == "const" and isinstance(src[2], str) and ctx is not None:
+                name = src[2].split("::")[-1]
+                cs = ctx.ast.const(name)
+                if len(cs) == 1:
+                    v = cs[0][3]["value"]
+                    elems = v.get("elems")
+                    if elems and all(x.get("t") in ("char", "int") for x in elems):
+                        return [ord(x["v"]) if x["t"] == "char" else int(x["v"]) for x in elems]
     return None
 
 
-def discharge_unreachable_closure(mir, s):
+def discharge_unreachable_closure(mir, s, ctx=None):
     """`f(K).unwrap_or_else(|| unreachable!())` where f is a workspace function that is a finite table over its argument
     (every path decided by comparing the argument with constants) and K can only be constants for which the table
     returns Some: the closure is never called.  Decided from f's decision table on every run."""
@@ -292,7 +350,7 @@ def discharge_unreachable_closure(mir, s):
     tb = mir.body(recv[2])
     if tb is None:
         return None
-    vals = _const_values(pb, recv[3][0], recv[4])
+    vals = _const_values(pb, recv[3][0], recv[4], ctx)
     if not vals:
         return None
     try:
@@ -378,7 +436,7 @@ def check_paths(ctx, rep, rule, roots, stop=(), label=None, extra_discharge=None
                         if why:
                             break
             if why is None and s["kind"] == "panic":
-                why = discharge_unreachable_closure(ctx.mir, s)
+                why = discharge_unreachable_closure(ctx.mir, s, ctx)
             if why is None and extra_discharge is not None:
                 why = extra_discharge(s)
         if why is not None:
